@@ -26,6 +26,8 @@ def run(repo, chk, tier):
     code_uses(repo, chk, 'C02.1')
     histogram(repo, chk, 'C02.1h')
     self_pair_test(repo, chk, 'C02.2')
+    from .kernel_rules import labelling_obligations
+    labelling_obligations(repo, chk, 'C02.5')
     coder(repo, chk)
     from .common import vector_casts
     vector_casts(repo, chk, 'C02.4')
